@@ -56,10 +56,11 @@ func TestSmoke(t *testing.T) {
 		if err != nil {
 			t.Fatalf("%s: %v", src, err)
 		}
-		js := irjs.Print(p)
 		for _, strict := range []bool{false, true} {
-			want := in.Run(p, strict)
-			got := e.run(wrap(js, PGlobal, strict), PGlobal, identNames(p), true)
+			mp := modeProg(p, strict)
+			js := irjs.Print(mp)
+			want := in.Run(mp, false)
+			got := e.run(wrap(js, PGlobal), PGlobal, identNames(p), true)
 			if got.compileErr != "" {
 				t.Errorf("compile error strict=%v: %s\n%s", strict, got.compileErr, js)
 				continue
